@@ -8,7 +8,7 @@ from types import SimpleNamespace
 from .. import common, gen, sge
 from ..runner import Ctx, coq_eval, coq_dna, coq_list, coq_opt, coq_str, coq_z, pool_map
 
-IMPORTS = ['Model.Base', 'Model.Pattern', 'Model.Seq', 'Model.Vcf']
+IMPORTS = ['Model.Base', 'Model.Pattern', 'Model.Seq', 'Model.Vcf', 'Model.Import']
 TYPES = {0: 'VIns', 1: 'VDel', 2: 'VSub', 3: 'VUnknown'}
 CLASSES = {0: 'Classified', 1: 'Unclassified', 2: 'Monomorphic'}
 
@@ -134,6 +134,15 @@ def check_design(ctx: Ctx, d: dict, r: dict, exprs: list, meta: list):
                 in_const = 0 if any(s <= p <= e for s, e in regions_of(t)) else 1
                 exp.append({'alias': v['alias'], 'id': vid or '', 'pos': p, 'ref_len': len(nr), 'new': na, 'in_const': in_const,
                             'raw': (rec['pos'], ref, alt)})
+        # the row set of each VCF through the model of the import (contig filter, monomorphic skip, range selection on the normalised span)
+        for v in d.get('vcfs') or []:
+            if any(rec['pos'] < 2 for rec in v['records']):
+                continue
+            recs = coq_list(f"mkRec {coq_str(rec.get('contig', d['contig']))} {rec['pos']} {coq_dna(rec['ref'].upper())} "
+                            f"{coq_opt(coq_dna(rec['alts'][0].upper()) if rec.get('alts') else None)}" for rec in v['records'])
+            impl = coq_list(f"({int(x['mut_position'])}, {len(x['ref'])}, {coq_dna(x['new'])})" for x in rows if x['vcf_alias'] == v['alias'])
+            exprs.append(f"imported_agree (import_records {coq_str(d['contig'])} (mkRange {t['ref_start']} {t['ref_end']}) {recs}) {impl}")
+            meta.append((d, t, f"row set of {v['alias']}"))
         ctx.evaluations += 1
         if exp:
             ctx.nontriv((common.sha(d), name))
@@ -195,6 +204,16 @@ def files(ctx: Ctx):
         d, t, raw = meta[i]
         ctx.violation('correspondence', f'custom row of record {raw} differs from the model',
                       {'surface': 'file', 'design': d, 'targeton': t, 'record': raw}, broken='correspondence S-file custom rows (C08)')
+
+
+    # negative control: an implementation that drops every row of a VCF must be rejected
+    ctl = [e[:e.rindex(') [') + 2] + '[]' for e in exprs if e.startswith('imported_agree') and not e.endswith(' []')][:3]
+    if ctl:
+        badc, _ = coq_eval(IMPORTS, ctl)
+        ctx.controls['run'] += len(ctl)
+        ctx.controls['rejected'] += len(badc)
+        if len(badc) != len(ctl):
+            ctx.violation('control', 'comparator accepted an emptied row set', broken='negative control', no_input=True)
 
 
 def bg_accept(kind: str, what: str) -> bool:
